@@ -1,5 +1,108 @@
+import Casket.Model.Reload
+import Casket.Spec.Reload
 import Driver.Proto
-/- Streams of C07 (stub: not built yet). -/
+/-
+Streams of C07.
+  c07.handover  S:<kind>  op op …     op = R:<kind> (reload) | T:<kind> (reload with a request in flight on address 1)
+     kinds: addresses served, e.g. 1, 12, 2, 21; suffix x = the configuration fails during setup; 3 = an address in use
+     out = step|step|…   step = <res>;fd=<f1>.<f2>;sk=<s1>.<s2>;p=<m1>.<m2>[;mid=<m>;str=<m>]
+  c07.storm     recorded trace of a reload storm under concurrent clients (see harness/streams/c07.go)
+-/
 namespace Driver.C07
-def streams : List Driver.Stream := []
+open Casket.Reload
+
+def busy : List Nat := [3]
+
+def parseKind (s : String) : Option Cfg :=
+  let cs := s.toList
+  let (cs, x) := if cs.getLast? == some 'x' then (cs.dropLast, true) else (cs, false)
+  if cs.isEmpty then none else
+  if cs.all (fun c => c == '1' || c == '2' || c == '3') then
+    some { addrs := cs.map fun c => c.toNat - '0'.toNat, failSetup := x }
+  else none
+
+inductive HOp where
+  | reload (c : Cfg)
+  | straddle (c : Cfg)
+
+def parseHOp (s : String) : Option HOp :=
+  if s.startsWith "R:" then (parseKind (s.drop 2).toString).map .reload
+  else if s.startsWith "T:" then (parseKind (s.drop 2).toString).map .straddle
+  else none
+
+def reloadHead (g : Nat) (m : M) (c : Cfg) : List Act :=
+  [.begin g c, .setup] ++ List.replicate (c.addrs.length + 1) .listen ++ [.serve, .stopOld]
+    ++ List.replicate m.cur.addrs.length .stop
+
+/-- the marker a fresh connection to `a` gets right now (the accepting instance answers), `-` if refused -/
+def probe (m : M) (a : Nat) : M × String :=
+  let id := m.nextConn
+  let g := if m.new.accepts a then m.new.gen else m.cur.gen
+  let m' := run m [.connect a, .accept g a, .respond id]
+  match m'.conns.find? (·.id == id) with
+  | some c => (m', match c.answered with | some k => toString k | none => "hang")
+  | none => (m', "-")
+
+/-- socket identities renamed in order of first appearance -/
+def rename (seen : List Nat) (m : M) (a : Nat) : List Nat × Nat :=
+  if m.fds a = 0 then (seen, 0)
+  else match seen.idxOf? (m.sock a) with
+    | some i => (seen, i + 1)
+    | none => (seen ++ [m.sock a], seen.length + 1)
+
+def lastRes (before : Nat) (m : M) : String :=
+  match (m.events.drop before).reverse.find? (fun e => match e with | .reloadOk _ => true | .reloadFailed => true | _ => false) with
+  | some (.reloadOk _) => "ok"
+  | some .reloadFailed => "err"
+  | _ => "none"
+
+def observe (seen : List Nat) (m : M) : M × List Nat × String :=
+  let (seen, s1) := rename seen m 1
+  let (seen, s2) := rename seen m 2
+  let f1 := m.fds 1
+  let f2 := m.fds 2
+  let (m, p1) := probe m 1
+  let (m, p2) := probe m 2
+  (m, seen, s!"fd={f1}.{f2};sk={s1}.{s2};p={p1}.{p2}")
+
+def runOps : Nat → List Nat → M → List HOp → List String
+  | _, _, _, [] => []
+  | g, seen, m, .reload c :: rest =>
+    let before := m.events.length
+    let m := run m (reloadHead g m c ++ [.finish])
+    let res := lastRes before m
+    let (m, seen, o) := observe seen m
+    s!"{res};{o}" :: runOps (g + 1) seen m rest
+  | g, seen, m, .straddle c :: rest =>
+    let before := m.events.length
+    let sid := m.nextConn
+    let m := run m [.connect 1, .accept m.cur.gen 1]
+    let connected := m.nextConn != sid
+    let m := run m (reloadHead g m c)
+    let (m, mid) := probe m 1
+    let m := if connected then run m [.respond sid] else m
+    let str := if !connected then "-" else match m.conns.find? (·.id == sid) with
+      | some c => (match c.answered with | some k => toString k | none => "hang")
+      | none => "-"
+    let m := run m [.finish]
+    let res := lastRes before m
+    let (m, seen, o) := observe seen m
+    s!"{res};{o};mid={mid};str={str}" :: runOps (g + 1) seen m rest
+
+def handoverModel : List String → String
+  | [] => "bad-case"
+  | s :: ops =>
+    if !s.startsWith "S:" then "bad-case" else
+    match parseKind (s.drop 2).toString, ops.mapM parseHOp with
+    | some c, some hops =>
+      if c.failSetup || c.addrs.contains 3 then "bad-case" else
+      let m := M.init busy c.addrs
+      let (m, seen, o) := observe [] m
+      "|".intercalate (s!"ok;{o}" :: runOps 2 seen m hops)
+    | _, _ => "bad-case"
+
+def streams : List Driver.Stream := [
+  { name := "c07.handover", model := handoverModel, judge := fun _ _ => "ok" }
+]
+
 end Driver.C07
